@@ -82,6 +82,15 @@ class Models:
             ct, _ = unit.ctype_node(n)
             ct = ct.replace('const ', '').rstrip('*').strip()
             return 'V_%s(%s, %s, %s)' % (name.upper(), ct, unit.expr(a), unit.expr(b))
+        if name in ('max', 'min') and len(args) == 0:
+            # std::numeric_limits<T>::max() / min()
+            ct, _ = unit.ctype_node(n)
+            from cxx2c import INT_RANGE
+            ct = ct.replace('const ', '').strip()
+            if ct in INT_RANGE:
+                lo, hi = INT_RANGE[ct]
+                return unit.int_lit(hi if name == 'max' else lo, ct)
+            raise Unsupported('numeric_limits of ' + ct)
         if name in ('move', 'forward') and len(args) == 1:
             return unit.expr(args[0])
         for p in self.plugins:
